@@ -2,7 +2,7 @@
 C02 — the CFF hinter's hint map never overruns its 96-slot edge array (skrifa/src/outline/cff/hint.rs HintMap::insert).
 Model: Model/HintMap.lean (checked array accesses: `none` = index-out-of-bounds panic); helpers: Lemmas/HintMap.lean.
 -/
-import FontVerif.Lemmas.HintMap
+import FontVerif.Lemmas.HintMapAdjust
 set_option linter.unusedVariables false
 namespace FontVerif.C02
 open FontVerif.HintMap
@@ -87,5 +87,113 @@ example : (HintMap.insert m95 (ghost 600).1 (ghost 600).2).map (·.len) = some 9
 -- make-room loop (`edges[dst_index]`): this is why the theorem needs `len + edge_count > MAX_HINTS`
 example : insertWith fullOnly m95 (pair 500).1 (pair 500).2 = none := by decide +kernel
 example : insertWith fullOnly m95 (pair 10).1 (pair 10).2 = none := by decide +kernel
+
+/-! ## `HintMap::build`: the insert sequence keeps the unit structure, `adjust` and `transform` stay inside the array -/
+
+/-- a sequence of shaped inserts (what `build` performs: the em-box ghosts, one `insert(bottom, top)` per active stem
+    with `Hint::setup` flags, the baseline ghost) keeps the active edges a sequence of units — single ghost edges and
+    adjacent bottom / top pairs — and the map well formed -/
+theorem insertAll_units (ops : List (Hint × Hint)) (hops : ∀ op ∈ ops, Shaped op.1 op.2) : ∀ (m : Map), WF m →
+    Units (m.edges.take m.len) →
+    ∃ m', insertAll m ops = some m' ∧ WF m' ∧ Units (m'.edges.take m'.len) := by
+  induction ops with
+  | nil => intro m h hu; exact ⟨m, rfl, h, hu⟩
+  | cons op rest ih =>
+    intro m h hu
+    obtain ⟨b, t⟩ := op
+    obtain ⟨m1, h1, hs⟩ := insert_total m b t h
+    have hu1 := insert_units m m1 b t h hu (hops (b, t) (by simp)) h1
+    obtain ⟨m2, h2, hw2, hu2⟩ := ih (fun op hop => hops op (by simp [hop])) m1 hs.1 hu1
+    exact ⟨m2, by simp only [insertAll, h1, h2], hw2, hu2⟩
+
+/-- **`adjust` never indexes outside the edge array or the `saved` array, and never underflows `j - 1`**: on a well
+    formed map whose active edges are units, for every outcome of its coordinate comparisons -/
+theorem adjust_total (m : Map) (hwf : WF m) (hu : Units (m.edges.take m.len)) (ora : Nat → Nat → Bool) :
+    HintMap.adjust m ora = some () := by
+  unfold HintMap.adjust
+  have hlen : m.len ≤ m.edges.length := by have := hwf.1; have := hwf.2; omega
+  obtain ⟨saved, h1, hs⟩ := adjustPass1_ok m.edges m.len ora hlen hwf.2 m.len 0 [] (by omega) (by simpa using hu)
+    (by simp) (by intro j hj; cases hj)
+  rw [h1]
+  exact adjustPass2_ok m.edges m.len hlen saved hs
+
+theorem transformUp_ok (edges : List Hint) (limit : Nat) (ge : Nat → Bool) (hl : limit < edges.length) :
+    ∀ (fuel i : Nat), i ≤ limit → ∃ r, transformUp edges limit ge fuel i = some r ∧ r ≤ limit := by
+  intro fuel
+  induction fuel with
+  | zero => intro i hi; exact ⟨i, rfl, hi⟩
+  | succ f ih =>
+    intro i hi
+    unfold transformUp
+    split
+    · obtain ⟨v, hv⟩ := getAt_ok (l := edges) (i := i + 1) (by omega)
+      rw [hv]
+      simp only []
+      split
+      · exact ih (i + 1) (by omega)
+      · exact ⟨i, rfl, hi⟩
+    · exact ⟨i, rfl, hi⟩
+
+theorem transformDown_ok (edges : List Hint) (lt : Nat → Bool) :
+    ∀ (fuel i : Nat), i < edges.length → ∃ r, transformDown edges lt fuel i = some r ∧ r ≤ i := by
+  intro fuel
+  induction fuel with
+  | zero => intro i hi; exact ⟨i, rfl, Nat.le_refl _⟩
+  | succ f ih =>
+    intro i hi
+    unfold transformDown
+    split
+    · obtain ⟨v, hv⟩ := getAt_ok (l := edges) (i := i) hi
+      rw [hv]
+      simp only []
+      split
+      · obtain ⟨r, hr, hle⟩ := ih (i - 1) (by omega)
+        exact ⟨r, hr, by omega⟩
+      · exact ⟨i, rfl, Nat.le_refl _⟩
+    · exact ⟨i, rfl, Nat.le_refl _⟩
+
+/-- **`transform` never indexes outside the array**: both scans and the final reads stay below `len` -/
+theorem transform_total (m : Map) (hwf : WF m) (ge lt : Nat → Bool) :
+    ∃ i, HintMap.transform m ge lt = some i ∧ (m.len = 0 ∨ i < m.len) := by
+  unfold HintMap.transform
+  by_cases h0 : m.len = 0
+  · rw [if_pos h0]; exact ⟨0, rfl, Or.inl h0⟩
+  · rw [if_neg h0]
+    have hlen : m.len ≤ m.edges.length := by have := hwf.1; have := hwf.2; omega
+    obtain ⟨i1, h1, hi1⟩ := transformUp_ok m.edges (m.len - 1) ge (by omega) m.len 0 (by omega)
+    rw [h1]
+    simp only []
+    obtain ⟨i2, h2, hi2⟩ := transformDown_ok m.edges lt (i1 + 1) i1 (by omega)
+    rw [h2]
+    simp only []
+    obtain ⟨v0, hv0⟩ := getAt_ok (l := m.edges) (i := 0) (by omega)
+    obtain ⟨v2, hv2⟩ := getAt_ok (l := m.edges) (i := i2) (by omega)
+    rw [hv0, hv2]
+    exact ⟨i2, rfl, Or.inr (by omega)⟩
+
+/-- **`HintMap::build` never overruns**: starting from `HintMap::new`, after ANY sequence of shaped inserts the map is
+    well formed, `adjust` returns for every outcome of its comparisons, and `transform` reads inside the array -/
+theorem hint_map_build_never_overruns (ops : List (Hint × Hint)) (hops : ∀ op ∈ ops, Shaped op.1 op.2)
+    (ora : Nat → Nat → Bool) (ge lt : Nat → Bool) :
+    ∃ m', insertAll Map.new ops = some m' ∧ m'.len ≤ MAX_HINTS ∧ HintMap.adjust m' ora = some () ∧
+      ∃ i, HintMap.transform m' ge lt = some i := by
+  obtain ⟨m', h, hw, hu⟩ := insertAll_units ops hops Map.new new_wf (by simp [Map.new]; exact Units.nil)
+  obtain ⟨i, hi, _⟩ := transform_total m' hw ge lt
+  exact ⟨m', h, hw.2, adjust_total m' hw hu ora, i, hi⟩
+
+/-! ### non-vacuity, and what the unit structure is for -/
+
+example : ∀ op ∈ ops95, Shaped op.1 op.2 := by decide +kernel
+example : HintMap.adjust m95 (fun _ _ => false) = some () := by decide +kernel
+example : HintMap.adjust m95 (fun _ w => w == 2) = some () := by decide +kernel
+/-- the full map (96 edges: the ghost, 47 pairs, one more ghost) -/
+example : ((HintMap.insert m95 (ghost 600).1 (ghost 600).2).bind (fun m => HintMap.adjust m (fun _ _ => false))) = some () := by
+  decide +kernel
+/-- an edge flagged PAIR_BOTTOM without its top in the LAST slot would make `adjust` read `edges[96]`: the unit structure
+    (which `insert` maintains for the hints `build` passes) is what excludes it -/
+def badLast : Map := { edges := (List.replicate 95 { flags := 1, cs := 0, ds := 0 }) ++ [{ flags := 4, cs := 0, ds := 0 }], len := 96 }
+example : HintMap.adjust badLast (fun _ _ => false) = none := by decide +kernel
+example : HintMap.transform m95 (fun _ => true) (fun _ => false) = some 94 := by decide +kernel
+example : HintMap.transform m95 (fun _ => false) (fun _ => true) = some 0 := by decide +kernel
 
 end FontVerif.C02
